@@ -284,6 +284,150 @@ def check_symbol_fields(idx, run):
         "changes what the copy writes", loc(tcls.module, dfunc))
 
 
+# how SymbolTable.deep_copy transfers each field that __init__ creates
+TABLE_FIELDS = {
+    "_symbols": "new_st.add(symbol.copy())",
+    "_argument_list": "new_st.specify_argument_list(",
+    "_tags": "new_st._tags[tag] =",
+    "_default_visibility": ("new_st._default_visibility =",
+                            "new_st.default_visibility ="),
+    "default_visibility": ("new_st._default_visibility =",
+                           "new_st.default_visibility ="),
+    # attached to the copied scope by ScopingNode._refine_copy (checked
+    # above), a table on its own has no node
+    "_node": None,
+}
+RAW_DICTS = ("symbols_dict", "_symbols", "_tags", "tags_dict")
+
+
+def raw_name_keys(func):
+    """Uses of the name-keyed dictionaries of a symbol table (or a local
+    alias) with a key that has not been normalised: the keys are lower-case
+    but Symbol.name keeps the case it was created with."""
+    aliases = set()
+    for stmt in ast.walk(func):
+        if isinstance(stmt, ast.Assign) and isinstance(stmt.targets[0],
+                                                       ast.Name) and \
+                isinstance(stmt.value, ast.Attribute) and \
+                stmt.value.attr in RAW_DICTS:
+            aliases.add(stmt.targets[0].id)
+
+    def is_dict(node):
+        return (isinstance(node, ast.Attribute) and node.attr in RAW_DICTS) \
+            or (isinstance(node, ast.Name) and node.id in aliases)
+
+    def normalised(key):
+        txt = ast.unparse(key)
+        if isinstance(key, ast.Constant):
+            return not isinstance(key.value, str) or \
+                key.value == key.value.lower()
+        return "_normalize(" in txt or ".lower()" in txt or \
+            txt.startswith("norm") or txt in ("key", "tag")
+    bad = []
+    for node in ast.walk(func):
+        key = None
+        if isinstance(node, ast.Subscript) and is_dict(node.value):
+            key = node.slice
+        elif isinstance(node, ast.Call) and isinstance(node.func,
+                                                       ast.Attribute) and \
+                node.func.attr in ("get", "pop") and is_dict(node.func.value) \
+                and node.args:
+            key = node.args[0]
+        elif isinstance(node, ast.Compare) and len(node.ops) == 1 and \
+                isinstance(node.ops[0], (ast.In, ast.NotIn)) and \
+                is_dict(node.comparators[0]):
+            key = node.left
+        if key is not None and ".name" in ast.unparse(key) and \
+                not normalised(key):
+            bad.append(node)
+    return bad
+
+
+def check_table_copy(idx, run):
+    """deep_copy transfers every field of the table on every path"""
+    from sa.obligations import skips_consult
+    tcls = idx.get_class("psyclone.psyir.symbols.symbol_table.SymbolTable")
+    init = tcls.methods["__init__"]
+    dfunc = tcls.methods["deep_copy"]
+    fields = sorted({t.attr for s in ast.walk(init)
+                     if isinstance(s, ast.Assign) for t in s.targets
+                     if isinstance(t, ast.Attribute) and
+                     isinstance(t.value, ast.Name) and t.value.id == "self"})
+    run.floor("SymbolTable fields", len(fields), 5)
+    for field in fields:
+        if field not in TABLE_FIELDS:
+            run.check("C15.R2", False, f"SymbolTable.{field}",
+                      "field transferred by deep_copy",
+                      f"SymbolTable.__init__ creates '{field}' but the "
+                      f"reviewed deep_copy does not know it: the copy would "
+                      f"silently get the default", loc(tcls.module, init))
+            continue
+        frag = TABLE_FIELDS[field]
+        if frag is None:
+            continue
+        res = skips_consult(dfunc, frag)
+        run.check("C15.R2", res is None, f"SymbolTable.{field}",
+                  "field transferred by deep_copy on every path",
+                  f"SymbolTable.deep_copy can return without '{frag}' "
+                  f"({res}): the copy of the table loses its {field}",
+                  loc(tcls.module, dfunc),
+                  sample={"rule": "C15.R2", "field": field, "via": frag,
+                          "ok": res is None})
+    for frag, what in (("symbol.interface = ImportInterface(new_container",
+                        "imports re-pointed at the new container symbols"),
+                       ("symbol.routines = new_routines",
+                        "generic interfaces re-pointed")):
+        res = skips_consult(dfunc, frag)
+        run.check("C15.R2", res is None, "SymbolTable.deep_copy",
+                  f"{what} on every path",
+                  f"deep_copy can return without '{frag}' ({res})",
+                  loc(tcls.module, dfunc))
+    # name-keyed dictionaries used with raw (case-preserving) names on the
+    # copy path
+    scls = idx.get_class("psyclone.psyir.nodes.scoping_node.ScopingNode")
+    funcs = [(scls, scls.methods["_refine_copy"]), (tcls, dfunc)]
+    if "shallow_copy" in tcls.methods:
+        funcs.append((tcls, tcls.methods["shallow_copy"]))
+    for cls, func in funcs:
+        bad = raw_name_keys(func)
+        run.check("C15.R2", not bad, f"{cls.name}.{func.name}",
+                  "symbols found by identity or through the normalising "
+                  "lookup",
+                  f"{cls.name}.{func.name} indexes the name-keyed "
+                  f"dictionary of a symbol table with a raw Symbol.name "
+                  f"({ast.unparse(bad[0]) if bad else ''}): the keys are "
+                  f"lower-cased, so a symbol spelt with capitals is never "
+                  f"found and stays bound to the original's symbol",
+                  loc(cls.module, bad[0] if bad else func))
+    # every rebinding in ScopingNode._refine_copy is guarded by a test
+    # against the original's table
+    func = scls.methods["_refine_copy"]
+    for stmt in ast.walk(func):
+        if isinstance(stmt, ast.If):
+            rebinds = [a for a in stmt.body if isinstance(a, ast.Assign) and
+                       "self.symbol_table.lookup(" in ast.unparse(a.value)]
+            if not rebinds:
+                continue
+            ttxt = ast.unparse(stmt.test)
+            names = {n.id for n in ast.walk(stmt.test)
+                     if isinstance(n, ast.Name)}
+            # local aliases (orig = other.symbol_table.symbols) count
+            expanded = ttxt
+            for sub in ast.walk(func):
+                if isinstance(sub, ast.Assign) and isinstance(
+                        sub.targets[0], ast.Name) and \
+                        sub.targets[0].id in names:
+                    expanded += " " + ast.unparse(sub.value)
+            ok = "other.symbol_table" in expanded or \
+                "other._symbol_table" in expanded
+            run.check("C15.R2", ok, "ScopingNode._refine_copy",
+                      f"rebinding of {ast.unparse(rebinds[0].targets[0])} "
+                      f"decided against the original's table",
+                      f"the rebinding is guarded by '{ttxt}', which does "
+                      f"not consult other.symbol_table directly",
+                      loc(scls.module, stmt))
+
+
 def check_children_deep(idx, run):
     ncls = idx.get_class("psyclone.psyir.nodes.node.Node")
     mod = ncls.module
@@ -331,6 +475,7 @@ def check(idx, run):
     run.explanation = __doc__
     check_containers(idx, run)
     check_symbol_fields(idx, run)
+    check_table_copy(idx, run)
     check_children_deep(idx, run)
     run.assumptions = ["copy.copy semantics (shallow attribute copy)",
                        "PSy-layer kernel objects are out of scope"]
